@@ -224,3 +224,24 @@ func VX_C08_project() {
 	vxCheckFrame(f, names, cols, ix, "source after op")
 	vx.Reach("end")
 }
+
+// VX_C08_enum_empty: the empty string is an enum value like any other, also as the first cell.
+func VX_C08_enum_empty() {
+	c := vx.Str(1)
+	e, x := "", c
+	data := []*string{&e, &x, nil, &e, &x}
+	f := New(map[string]interface{}{"e": data}, newqf.Enums(map[string][]string{"e": nil}))
+	vx.Check(f.Err == nil, "derived enum with empty strings: no error")
+	if f.Err == nil {
+		v := f.MustEnumView("e")
+		for r, p := range data {
+			q := v.ItemAt(r)
+			vx.Check((p == nil) == (q == nil) && (p == nil || *p == *q), "every cell keeps its value (empty string first)")
+		}
+	}
+	only := New(map[string]interface{}{"e": []*string{&e, &e}}, newqf.Enums(map[string][]string{"e": nil}))
+	vx.Check(only.Err == nil && only.Len() == 2 && only.MustEnumView("e").ItemAt(1) != nil && *only.MustEnumView("e").ItemAt(1) == "", "a column of empty strings only")
+	strict := New(map[string]interface{}{"e": []*string{&e, &x}}, newqf.Enums(map[string][]string{"e": {"a", "b"}}))
+	vx.Check(strict.Err != nil, "the empty string is not a declared value")
+	vx.Reach("end")
+}
